@@ -51,6 +51,11 @@ def entag (s : String) : String := if s.isEmpty then "_" else s
 def parseMask (s : String) : Option (List Bool) :=
   if s.length == 3 then some (s.toList.map (· == '1')) else none
 
+def splitLimit (s : String) : String × Option Nat :=
+  match s.splitOn "@" with
+  | [t, l] => (t, l.toNat?)
+  | _ => (s, none)
+
 def parseTop (s : String) : Option (Option (Nat × Bool)) :=
   if s == "0" then some none
   else match s.splitOn ":" with
@@ -90,15 +95,43 @@ def doScenario (path : Path) (ws : List String) : String :=
   match ws with
   | fnS :: maskS :: topS :: nodesS :: rest =>
     let rowsS := rest.headD "-"
+    let (topS, lim) := splitLimit topS
+    let lim := if path == .row then lim else none      -- the vectorized operators driven here have no limit stage
     match parseFn fnS, parseMask maskS, parseTop topS, parseNodes nodesS, parseRows rowsS with
     | some fn, some mask, some top, some nodes, some rows =>
       let sc : Scenario := ⟨fn, mask, top, nodes, rows⟩
       match sc.local path .exact, sc.distributed path .exact with
       | some l, some d =>
-        s!"L={showFinal mask l} D={showFinal mask d} R={showPartials mask (sc.answers path .exact)}"
+        s!"L={showFinal mask (limitOf lim l)} D={showFinal mask (limitOf lim d)} R={showPartials mask (sc.answers path .exact)}"
       | _, _ => "PANIC"
     | _, _, _, _, _ => "bad-op"
   | _ => "bad-op"
+
+def parseTnItem (s : String) : Option TnItem :=
+  match s.splitOn "." with
+  | [t, k, v, ver] =>
+    match t.toNat?, v.toInt?, ver.toInt? with
+    | some ts, some val, some vr => some ⟨ts, k, val, vr⟩
+    | _, _, _ => none
+  | _ => none
+
+def parseTnResps (s : String) : Option (List TnItem) :=
+  ((s.splitOn "/").mapM fun r =>
+    if r == "-" then some [] else (r.splitOn ",").mapM parseTnItem).map List.flatten
+
+def doTnp (nS dir aggS resps : String) : String :=
+  match nS.toNat?, parseTnResps resps with
+  | some n, some items =>
+    let asc := dir == "a"
+    let tls := tnRun n asc items
+    if items.isEmpty then "E"
+    else if aggS == "none" then
+      "T=" ++ ";".intercalate ((tnVal asc tls).map fun (t, tl) =>
+        s!"{t}:" ++ ",".intercalate (tl.map fun e => s!"{e.2.1}={e.1}"))
+    else match parseFn aggS with
+      | some fn => "A=" ++ dash (",".intercalate ((tnFlush fn n asc tls).map fun e => s!"{e.2}={e.1}"))
+      | none => "bad-op"
+  | _, _ => "bad-op"
 
 def handle (line : String) : String :=
   match words line with
@@ -107,6 +140,7 @@ def handle (line : String) : String :=
   | ["fnz", f, parts] => doFn f "z" parts
   | "ff" :: _ => "-"                      -- float accumulators are not modelled (oracle only)
   | ["top", n, dir, vals] => doTop n dir vals
+  | ["tnp", n, dir, agg, _mode, resps] => doTnp n dir agg resps
   | "row" :: rest => doScenario .row rest
   | "vec" :: rest => doScenario .vec rest
   | _ => "bad-op"
